@@ -69,6 +69,15 @@ add("C01", MC,
     "Trusted: simnet (stream semantics, FIFO default schedule), position-coded payloads + data independence of h3 for payload bytes. Bound: k=2 deviations per execution; shapes are a covering subset in quick, the full product in thorough.",
     "stateless DFS with iterative deviation bounding over schedule x chunking x back-pressure choices of the running implementation", "dfs", "DESIGN.md 5/C01")
 
+add("C07", MC,
+    "N concurrent requests on one connection, every assignment of {healthy, RESET at several byte offsets, STOP_SENDING, three kinds of malformed message, oversized section, FIN before HEADERS} with at least one faulty request, for a real server and a real client against a scripted peer playing the streams round-robin; every execution with at most k deviations (scheduling among handler/request tasks, driver and script; chunk cuts and delayed delivery on every request stream) plus one-byte reads. Oracle: healthy requests deliver exactly their own position-coded bytes and complete, the connection is never closed, each faulty request reports the stream-level error the property names.",
+    "Trusted: simnet; the faulty side is scripted because a conforming endpoint cannot produce most faults. Bound: N=2 (quick) / 3 (thorough), k=2.",
+    "stateless DFS with deviation bounding over schedule x chunking choices of the running implementation, fault-assignment enumeration", "dfs", "DESIGN.md 5/C07")
+add("C14", MC,
+    "The inputs are programs: every client call sequence up to length 4 (5) and every server call sequence up to length 3 (5) over the sending API (incl. empty and two-chunk buffers, stop_stream, shutdown(n)), x grease x extension configuration, executed on real endpoints over simnet under the default transport, the uniform one-byte-per-write schedule and every write-acceptance pattern with at most k deviations. Oracle: an independent RFC 9114 parser over the complete byte log of every stream either endpoint wrote.",
+    "Trusted: refimpl::{frames,settings,qpack,varint}. A write cut short by connection death or still in flight at quiescence may end inside a frame. Programs stop using a stream at its first error.",
+    "exhaustive enumeration of API programs x write-acceptance schedules (deviation-bounded DFS) on the implementation, reference-parser oracle on the wire logs", "dfs", "DESIGN.md 5/C14")
+
 ALL = [f"C{i:02d}" for i in range(1, 21)]
 pending_reason = "check not built yet in this revision of /verif (planned, see DESIGN.md section 5)"
 manifest = dict(
